@@ -1,0 +1,70 @@
+//go:build verif
+
+// Contracts for contract-based deductive verification (see /verif/DESIGN.md).
+// Comment-only file: it contributes no code to any build.
+
+package convert
+
+// ---------------------------------------------------------------- C11: enumeration tables
+// isconst(x, T) is the disjunction over every constant that go/types reports
+// for type T on the current tree, so a new enum value is covered without
+// touching these contracts.
+
+//@ func toResultCode
+//@   props C11
+//@   nopanic
+//@   modifies nothing
+//@   ensures (result1 == nil) == isconst(in, autogen.ResultCode)
+//@   ensures imp(result1 == nil, isconst(result0, message.ResultCode))
+
+//@ func toResultCodeProto
+//@   props C11
+//@   nopanic
+//@   modifies nothing
+//@   ensures (result1 == nil) == isconst(in, message.ResultCode)
+//@   ensures imp(result1 == nil, isconst(result0, autogen.ResultCode))
+
+//@ func toQoS
+//@   props C11
+//@   nopanic
+//@   modifies nothing
+//@   ensures (result1 == nil) == isconst(in, autogen.QoS)
+//@   ensures imp(result1 == nil, isconst(result0, message.QoS))
+
+//@ func toQoSProto
+//@   props C11
+//@   nopanic
+//@   modifies nothing
+//@   ensures (result1 == nil) == isconst(in, message.QoS)
+//@   ensures imp(result1 == nil, isconst(result0, autogen.QoS))
+
+// The two tables are mutually inverse (up to the documented wire aliasing:
+// NORMAL_CLOSURE and SUCCEEDED share wire value 0, so NormalClosure decodes as Succeeded).
+
+//@ lemma resultCodeWireRoundTrip
+//@   props C11
+//@   forall w autogen.ResultCode
+//@   let m, e1 = toResultCode(w)
+//@   let w2, e2 = toResultCodeProto(m)
+//@   ensures imp(isconst(w, autogen.ResultCode), e1 == nil && e2 == nil && w2 == w)
+
+//@ lemma resultCodeRoundTrip
+//@   props C11
+//@   forall m message.ResultCode
+//@   let w, e1 = toResultCodeProto(m)
+//@   let m2, e2 = toResultCode(w)
+//@   ensures imp(isconst(m, message.ResultCode), e1 == nil && e2 == nil && m2 == ite(m == message.ResultCodeNormalClosure, message.ResultCodeSucceeded, m))
+
+//@ lemma qosWireRoundTrip
+//@   props C11
+//@   forall w autogen.QoS
+//@   let m, e1 = toQoS(w)
+//@   let w2, e2 = toQoSProto(m)
+//@   ensures imp(isconst(w, autogen.QoS), e1 == nil && e2 == nil && w2 == w)
+
+//@ lemma qosRoundTrip
+//@   props C11
+//@   forall m message.QoS
+//@   let w, e1 = toQoSProto(m)
+//@   let m2, e2 = toQoS(w)
+//@   ensures imp(isconst(m, message.QoS), e1 == nil && e2 == nil && m2 == m)
